@@ -91,6 +91,8 @@ def run(ctx):
 
     ctx.level = 'model_checking'
     run_mpi_results(ctx)
+    from checks import c20_mpi
+    c20_mpi.run(ctx)
 
     # C20_PARTS selects parts while developing / trying mutants (default: all)
     parts = os.environ.get('C20_PARTS', 'abc')
@@ -157,5 +159,11 @@ def replay(ctx, data):
         return part_b.replay(ctx, r)
     if p == 'c':
         return part_c.replay(ctx, r)
+    if p == 'mpi-alloc':
+        from checks import c20_mpi
+        return c20_mpi.replay(ctx, r)
+    if p == 'mpi-results':
+        print('rank exit codes', r['codes'], 'arrival order', r['order'])
+        return 0
     print('unknown replay part %r' % p)
     return 2
